@@ -25,6 +25,7 @@ TraceNext ==
     \/ /\ Consume("pull") /\ Pull /\ Returned
     \/ /\ Consume("peek") /\ Peek /\ Returned
     \/ /\ Consume("churn") /\ Churn(Ev.arg, 0) /\ Returned
+    \/ /\ Consume("ballast") /\ Ballast(Ev.arg) /\ Returned
     \/ /\ Consume("extract") /\ Extract(Ev.arg) /\ Returned
 
 TraceSpec == TraceInit /\ [][TraceNext]_tvars
